@@ -25,8 +25,7 @@ REPO = os.environ.get('VF_REPO', '/repo')
 sys.path.insert(0, os.path.join(VERIF, 'tools'))
 import annotate  # noqa: E402
 
-STD_FLAGS = ['--pointer-overflow-check', '--conversion-check',
-             '--pointer-primitive-check']
+STD_FLAGS = ['--pointer-overflow-check', '--pointer-primitive-check']
 MEM_KB = 12 * 1024 * 1024
 
 
@@ -87,6 +86,7 @@ class UnitResult:
         self.reason = ''
         self.checks = []            # list of dict(id, desc, status, loc)
         self.failed = []
+        self.unknown = []
         self.reach_ok = 0
         self.reach_bad = []
         self.secs = {'goto-cc': 0.0, 'dfcc': 0.0, 'cbmc': 0.0}
@@ -225,10 +225,16 @@ def build_unit(u, scr, workdir, tier, trace=False):
                 r.reach_ok += 1
             else:
                 r.reach_bad.append(c)
-        elif c['status'] != 'SUCCESS':
+        elif c['status'] == 'FAILURE':
             r.failed.append(c)
+        elif c['status'] != 'SUCCESS':
+            r.unknown.append(c)
     if r.failed:
         r.status = 'FAIL'
+        return r
+    if r.unknown:
+        r.reason = '%d obligations UNKNOWN/ERROR (e.g. %s)' % (
+            len(r.unknown), r.unknown[0]['id'])
         return r
     if r.reach_bad:
         r.reason = 'vacuity: reach marker not reachable: ' + \
